@@ -13,6 +13,7 @@ import Driver.C07
 import Driver.C08
 import Driver.C08mc
 import Driver.Wire
+import Driver.GvtNode
 
 open Driver
 
@@ -39,6 +40,7 @@ def main (args : List String) : IO Unit :=
   | ["shutdown01"] => runLoop (RootSim.Shutdown.St.init 1) (shutdownStep { closeFix := false, zeroFix := true })
   | ["shutdown11"] => runLoop (RootSim.Shutdown.St.init 1) (shutdownStep { closeFix := true, zeroFix := true })
   | ["shutdownmc"] => runLoop () (fun st toks => (st, shutdownMc toks))
+  | ["gvtnode"] => runLoop ({} : GNSt) gnStep
   | ["wire"] => runLoop () (fun st toks => (st, wirecmd toks))
   | ["heap"] => runLoop ({} : HeapSt) heapStep
   | ["par"] => runLoop ({} : Driver.Run.Sys) Driver.Run.parStep
